@@ -65,7 +65,8 @@ PROPS = {
                            B + "_parameter_assignments", B + "rhs", B + "scheme", B + "missing_values"] + SCHEMES,
                 lemmas=L.STAB + L.C12L + L.C13L),
     "C13": dict(functions=[O + "missing_variables", O + "dependents", B + "missing_index", B + "_missing_variables_assignments",
-                           B + "missing_values", B + "rhs", B + "monitor_values", B + "scheme", TP + "missing_index", TC + "missing_index"],
+                           B + "missing_values", B + "rhs", B + "monitor_values", B + "scheme", TP + "missing_index", TC + "missing_index",
+                           O + "__sub__", "gotranx.ode_component.BaseComponent.to_ode"],
                 lemmas=L.C13L),
     "C14": dict(functions=PY_PRINT + [B + "_shape_info", TP + "method"], lemmas=[], level="other",
                 explanation="only the text of the shape prologue (_shape_info) is proved for all inputs; elementwise printing is decided on "
